@@ -498,6 +498,12 @@ func (d *cfgDynamic) toConfig(opts *options) (cfg *Config, err error) {
 }
 
 func (d *cfgDynamic) withValue(err *error, opts *options, fn func(value)) {
+	// references resolved while evaluating d are active (cycle detection) only
+	// until d has been evaluated: using one of them again afterwards is fine
+	active := opts.activeFields
+	opts.activeFields = newFieldSet(active)
+	defer func() { opts.activeFields = active }()
+
 	var v value
 	if v, *err = d.getValue(opts); *err == nil {
 		fn(v)
